@@ -36,6 +36,9 @@ pub enum Limit {
     ColumnName(usize),
     /// packable characters only / one unpackable character per pair
     StreamName(usize, bool),
+    /// as `StringsAfterDelete`, with the package closed and reopened between
+    /// the deletion (the session's only change) and the insert
+    StringsAfterDeleteReopen(u32, u32, u32),
     /// n characters outside ASCII (0 three-byte '日', 1 two-byte 'é', 2 the
     /// surrogate pair '😀') behind a one-letter prefix: the limit counts
     /// UTF-16 units of the packed name, not bytes and not characters
@@ -174,6 +177,17 @@ fn approach(l: &Limit) -> Result<(Package<SharedBuf>, SharedBuf, Snapshot, std::
             let r = pkg.insert_rows(Insert::into("S").rows((0..*add).map(|i| vec![Value::Str(format!("new{i:05}"))]).collect()));
             Ok((pkg, buf, before, r, if pre - freed + add <= 65535 { Expect::MustOk } else { Expect::MustErr }))
         }
+        Limit::StringsAfterDeleteReopen(pre, freed, add) => {
+            let buf = SharedBuf::new(file_with_pool(*pre)?);
+            let mut pkg = Package::open(buf.clone()).map_err(|e| Fail::new(format!("{P} unreadable-file"), format!("a file with {pre} pool entries does not open: {e}")))?;
+            pkg.delete_rows(Delete::from("S").with(Expr::col("k").lt(Expr::string(format!("s{:06}", freed))))).map_err(|e| err("delete", e))?;
+            let bytes = pkg.into_inner().map_err(|e| err("into_inner", e))?.bytes();
+            let buf = SharedBuf::new(bytes);
+            let mut pkg = Package::open(buf.clone()).map_err(|e| Fail::new(format!("{P} unreadable-file"), format!("the file does not open after the deletion was saved: {e}")))?;
+            let before = snap(&mut pkg)?;
+            let r = pkg.insert_rows(Insert::into("S").rows((0..*add).map(|i| vec![Value::Str(format!("new{i:05}"))]).collect()));
+            Ok((pkg, buf, before, r, if pre - freed + add <= 65535 { Expect::MustOk } else { Expect::MustErr }))
+        }
         Limit::ValidationRowsFull(free, ncols) => {
             let (mut pkg, buf) = fresh()?;
             let have = pkg.select_rows(msi::Select::table("_Validation")).map_err(|e| err("select", e))?.len() as u32;
@@ -307,6 +321,7 @@ fn cases(thorough: bool) -> Vec<Limit> {
         Limit::Strings(65535, 3, true), Limit::Strings(65533, 4, true), Limit::Strings(65500, 4, true),
         Limit::ValidationRowsFull(2, 2), Limit::ValidationRowsFull(1, 2), Limit::ValidationRowsFull(0, 1), Limit::ValidationRowsFull(3, 5),
         Limit::StringsAfterDelete(65535, 3, 3), Limit::StringsAfterDelete(65535, 3, 4), Limit::StringsAfterDelete(65535, 1, 1),
+        Limit::StringsAfterDeleteReopen(65535, 3, 3), Limit::StringsAfterDeleteReopen(65535, 3, 4), Limit::StringsAfterDeleteReopen(65535, 1, 1),
     ];
     for n in [30usize, 31, 32, 33, 59, 60, 61, 64, 65] {
         v.push(Limit::TableName(n));
